@@ -68,7 +68,9 @@ pub struct RunSummary {
     pub hung: bool,
 }
 
-pub const RUN_TIMEOUT_S: u64 = 20;
+pub const RUN_TIMEOUT_S: u64 = 10;
+/// a worker slice stops after this many hung runs (each costs RUN_TIMEOUT_S)
+pub const MAX_HANGS_PER_SLICE: u32 = 3;
 
 pub fn focus_name(f: Focus) -> &'static str {
     match f {
@@ -183,8 +185,10 @@ pub fn run_stage(base_seed: u64, stage: &Stage, workers: usize) -> Result<Vec<Ru
                         Some(0) => break,
                         Some(3) => {
                             restarts += 1;
-                            if restarts > 200 {
-                                return Err("more than 200 hung runs in one worker slice".into());
+                            if restarts >= MAX_HANGS_PER_SLICE {
+                                // every hung run is already reported; the rest of
+                                // this slice is skipped (the stage is truncated)
+                                break;
                             }
                         }
                         other => {
@@ -209,7 +213,8 @@ pub fn run_stage(base_seed: u64, stage: &Stage, workers: usize) -> Result<Vec<Ru
         return Err(errors.join("; "));
     }
     all.sort_by_key(|s| s.index);
-    if all.len() as u64 != stage.runs {
+    let hung = all.iter().filter(|s| s.hung).count();
+    if all.len() as u64 != stage.runs && hung == 0 {
         return Err(format!("stage {}: expected {} results, got {}", stage.name, stage.runs, all.len()));
     }
     Ok(all)
